@@ -125,6 +125,78 @@ pub fn check_state(repo: &Repo, fmt: &str, cx: &mut Cx) -> Res {
         let n: Vec<u64> = parts.iter().map(|p| p.parse().unwrap()).collect();
         ensure!(v.major == Some(n[0]) && v.minor == Some(n[1]) && v.patch == Some(n[2]) && v.pre_release.is_none() && v.post.is_none() && v.dev.is_none(), "version fields {:?}.{:?}.{:?} do not match tag {tag}", v.major, v.minor, v.patch);
     }
+    // --- VCS overrides on top of the git source: exactly the overridden variables change
+    // (metamorphic: the base run's object with the documented replacement applied)
+    {
+        let variant = (m.commits.len() * 3 + m.tags.len() + fmt.len() + m.dirty() as usize) % 8;
+        let head_time = m.commits[head].time;
+        let mut want = v.clone();
+        let flags: Vec<&str> = match variant {
+            0 => {
+                want.distance = None;
+                want.dirty = Some(false);
+                want.bumped_timestamp = Some(head_time);
+                vec!["--clean"]
+            }
+            1 => {
+                want.dirty = Some(false);
+                want.bumped_timestamp = Some(head_time);
+                vec!["--no-dirty"]
+            }
+            2 => {
+                want.dirty = Some(true);
+                want.bumped_timestamp = None; // wall clock, bracketed below
+                vec!["--dirty"]
+            }
+            3 => {
+                want.distance = Some(7);
+                vec!["--distance", "7"]
+            }
+            4 => {
+                want.bumped_branch = Some("other/branch".into());
+                want.bumped_commit_hash = Some("gfeedbeef".into());
+                vec!["--bumped-branch", "other/branch", "--bumped-commit-hash", "gfeedbeef"]
+            }
+            5 => {
+                want.distance = Some(0);
+                want.dirty = Some(false);
+                want.bumped_branch = None;
+                want.bumped_commit_hash = None;
+                want.bumped_timestamp = None;
+                vec!["--no-bump-context"]
+            }
+            6 => {
+                want.bumped_timestamp = if m.dirty() { None } else { Some(86_400 * 365) };
+                vec!["--bumped-timestamp", "31536000"]
+            }
+            _ => {
+                want.distance = Some(0);
+                want.dirty = Some(false);
+                want.bumped_timestamp = Some(head_time);
+                vec!["--no-dirty", "--distance", "0"]
+            }
+        };
+        let mut args = vec!["--input-format", fmt, "--output-format", "zerv"];
+        args.extend(flags.iter().copied());
+        let t0 = std::time::SystemTime::now().duration_since(std::time::UNIX_EPOCH).unwrap().as_secs();
+        let o2 = zerv_at(&repo.path(), &args);
+        let t1 = std::time::SystemTime::now().duration_since(std::time::UNIX_EPOCH).unwrap().as_secs();
+        if o2.timed_out {
+            infra("zerv version -C timed out");
+            return Ok(());
+        }
+        ensure!(o2.code == Some(0), "zerv failed with {flags:?} (exit {:?}: {}) ({})", o2.code, o2.err_str().trim(), ctx());
+        let z2 = zerv::version::Zerv::from_str(&o2.out_str()).map_err(|e| Bad::Fail(format!("output does not parse: {e}")))?;
+        let mut got = MVars::from_zerv(&z2.vars);
+        if got.dirty == Some(true) {
+            ensure!(got.bumped_timestamp.is_some_and(|t| t >= t0 && t <= t1), "{flags:?}: dirty, but bumped_timestamp {:?} is not in the wall-clock bracket [{t0},{t1}] ({})", got.bumped_timestamp, ctx());
+            got.bumped_timestamp = None;
+            want.bumped_timestamp = None;
+        }
+        ensure!(got == want, "{flags:?} on the git source: variables differ from the plain run with the override applied\n  zerv : {got:?}\n  want : {want:?}\n  ({})", ctx());
+        cx.label(["override:clean", "override:no-dirty", "override:dirty", "override:distance", "override:branch+hash", "override:no-bump-context", "override:bumped-timestamp", "override:no-dirty+distance0"][variant]);
+        cx.extra_evals += 1;
+    }
     // classification
     let nt = m.merges > 0 && anc.iter().any(|c| m.commits[*c].parents.len() > 1)
         || on_t.len() >= 2
